@@ -448,29 +448,25 @@ def parse_op(name, data, start, stop, skip):
 def correspondence(chk, tape_mod):
     rng = chk.rng
     ops, impl = [], []
-    # The model mirrors the code as it is, including the finding (Props: C11_full_false).
-    # If the code no longer shows the finding's witness, inputs of the finding's class are left out of
-    # the tie (they are then covered by the e2e oracle only) instead of reporting a stale model.
-    witness = dict(pulses=(), zero=(100,), one=(200, 300), pause=0, used_bits=1, data=False, tail=0, polarity=1,
-                   bytes=[128], keys=None, style='witness')
-    finding_present = real_edges(tape_mod, [witness], 0, 0) == 'ok 0 0 200 | 1 2 1 -1 1 128'
-    if not finding_present:
-        chk.note('finding ' + FINDING_KEY + ' no longer reproduces on the code: inputs of its class are excluded from the '
-                 'model/code tie (Model/Edges.fastSeq still mirrors the old truncation)')
-    skipped = 0
     for _ in range(chk.scale(4000, 40000)):
         descs = rand_tape(rng)
         fe = rng.choice((0, 0, 0, 1, 1000, -5, 69888))
         pol = rng.choice((0, 0, 1, 1, 2, 3, -1))
-        in_class = any(in_finding_class(t['zero'], t['one'], t['used_bits'], t['bytes']) for t in descs)
-        if in_class and not finding_present:
-            skipped += 1
-            continue
         ops.append(edges_op(descs, fe, pol))
         impl.append(real_edges(tape_mod, descs, fe, pol))
         nz = any(t['bytes'] for t in descs)
-        chk.case('corr-edges-finding-class' if in_class else 'corr-edges', ('edges', ops[-1]) if nz else None,
+        uneven = any(uneven_partial(t['zero'], t['one'], t['used_bits'], t['bytes']) for t in descs)
+        chk.case('corr-edges-p0-ne-p1-partial-byte' if uneven else 'corr-edges', ('edges', ops[-1]) if nz else None,
                  {'op': ops[-1][:200], 'impl': impl[-1][:200]})
+    # regression inputs of the fixed defect 135fa23 (last byte cut in the middle of a bit when p0 != p1)
+    for zero, one, ub, data in (((100,), (200, 300), 1, [128]), ((100,), (200, 300), 3, [0xA0]), ((1, 2, 3), (9,), 7, [0x55, 0xAA]),
+                                ((5, 6), (7,), 2, [0x40]), ((5,), (6, 7, 8), 5, [0xF8, 0x08])):
+        for tail in (0, 945):
+            desc = dict(pulses=(), zero=zero, one=one, pause=0, used_bits=ub, data=False, tail=tail, polarity=1,
+                        bytes=data, keys=None, style='regression')
+            ops.append(edges_op([desc, desc], 0, 0))
+            impl.append(real_edges(tape_mod, [desc, desc], 0, 0))
+            chk.case('corr-edges-regression', ('edges', ops[-1]))
     fn = os.path.join(chk.scratch, 'corr.bin')
     # writers
     for _ in range(chk.scale(300, 3000)):
@@ -536,11 +532,9 @@ def correspondence(chk, tape_mod):
 # JSON-serialisable case, so that a replay re-evaluates exactly the stored case.
 # --------------------------------------------------------------------------
 
-FINDING_KEY = 'pzx-data-p0-ne-p1-used-bits-lt-8-truncated-mid-bit'
-
-
-def in_finding_class(zero, one, used_bits, data):
-    """Table path, bit sequences of different lengths, last byte partly used."""
+def uneven_partial(zero, one, used_bits, data):
+    """Table path, bit sequences of different lengths, last byte partly used (the class of the
+    defect fixed by 135fa23; kept as a distribution tag and for the regression inputs)."""
     zero, one = tuple(zero or ()), tuple(one or ())
     return bool(data) and 0 not in zero and 0 not in one and len(zero) != len(one) and used_bits < 8
 
@@ -602,48 +596,24 @@ def rand_logical(rng, kind):
     return items
 
 
-def rand_logical_pzx(rng, allow_finding):
-    """A logical tape only PZX can express: arbitrary bit sequences, tails, free pulse lists.
-    With `allow_finding` the last data item is of the known finding's class (p0 != p1, used bits < 8)."""
+def rand_logical_pzx(rng):
+    """A logical tape only PZX can express: arbitrary bit sequences (also of different lengths, with
+    any used-bits count), tails, free pulse lists."""
     items = []
-    nblocks = rng.choice((1, 2, 3, 4))
-    for k in range(nblocks):
+    for k in range(rng.choice((1, 2, 3, 4))):
         if rng.random() < 0.7:
             items.append(('tone', rng.choice((1, 2, 3, 5, 8)), rng.choice((2168, 1, 70000, 0x7FFFFFFF))))
         if rng.random() < 0.7:
             items.append(('pulses', [rng.choice((667, 735, 1, 65536, 99999)) for _ in range(rng.choice((1, 2, 3)))]))
-        finding = allow_finding and k == nblocks - 1
-        while True:
-            s0 = [rng.choice((1, 2, 855, 65535)) for _ in range(rng.choice((1, 2, 2, 3)))]
-            s1 = [rng.choice((3, 4, 1710, 65534)) for _ in range(rng.choice((1, 2, 2, 3)))]
-            used = rng.choice((8, 8, 1, 2, 3, 4, 5, 6, 7))
-            if finding == (len(s0) != len(s1) and used < 8):
-                break
+        s0 = [rng.choice((1, 2, 855, 65535)) for _ in range(rng.choice((1, 2, 2, 3)))]
+        s1 = [rng.choice((3, 4, 1710, 65534)) for _ in range(rng.choice((1, 2, 2, 3)))]
+        used = rng.choice((8, 8, 1, 2, 3, 4, 5, 6, 7))
         data = rand_bytes(rng, rng.choice((1, 1, 2, 3, 6)))
         tail = rng.choice((0, 945, 1, 65535))
         items.append(('data', data, used, s0, s1, tail))
-        if rng.random() < 0.6 and not finding:
+        if rng.random() < 0.6:
             items.append(('pause', rng.choice((1, 3500, 3500000, 0x7FFFFFFF))))
     return items
-
-
-def finding_item(it):
-    return it[0] == 'data' and in_finding_class(it[3], it[4], it[2], it[1])
-
-
-def item_pulses_as_found(it):
-    """The pulses of a data item under the finding's truncation rule (last byte cut at
-    `len(bt) * used_bits // 8` pulses of its 8-bit pulse list) — used only to recognise the known finding."""
-    from indep import tapedec
-    if not finding_item(it):
-        return tapedec.item_pulses(it)
-    _, data, used, s0, s1, tail = it
-    out = tapedec.item_pulses(('data', data[:-1], 8, s0, s1, 0)) if len(data) > 1 else []
-    bt = tapedec.item_pulses(('data', data[-1:], 8, s0, s1, 0))
-    out += bt[:len(bt) * used // 8]
-    if tail:
-        out.append(tail)
-    return out
 
 
 def expected_signal(items, pulses_of=None):
@@ -726,12 +696,7 @@ def signal_fails(mods, tag, fmt, file_bytes, items, fe=0, pol=0):
             ranges = [[a + 1, b + 1, t0, it] for a, b, t0, it in ranges]
         return want_edges, ranges
 
-    fails = signal_core(tag, fmt, edges, dbs, *expect(None), lambda it: False)
-    if fails and any(finding_item(it) for it in items):
-        # is the deviation exactly the known truncation of the last byte, and nothing else?
-        if not signal_core(tag, fmt, edges, dbs, *expect(item_pulses_as_found), finding_item):
-            return [(FINDING_KEY, fails[0][1])]
-    return fails
+    return signal_core(tag, fmt, edges, dbs, *expect(None), lambda it: False)
 
 
 def cancel_pairs(edges):
@@ -1083,7 +1048,7 @@ def e2e(chk, mods):
                  sample={'kind': kind, 'items': [str(i)[:60] for i in items[:4]]})
     # PZX-only tapes: arbitrary bit sequences, tails, multi-word durations, repeat counts
     for n in range(chk.scale(400, 2500)):
-        items = rand_logical_pzx(rng, n % 10 == 0)
+        items = rand_logical_pzx(rng)
         evaluate(chk, mods, 'pzx', {'items': items, 'fe': rng.choice((0, 0, 5, -2)), 'pol': rng.choice((0, 0, 1, 3))}, key=('pzx', n),
                  sample={'items': [str(i)[:60] for i in items[:4]]})
     for n in range(chk.scale(400, 2500)):
@@ -1096,8 +1061,14 @@ def e2e(chk, mods):
                              ([w, 0, w], [0, w, 0]), ([0, w], [0, 2 * w]), ([w, 0, 0], [0, 0, w])))
         items.append(('data', rand_bytes(rng, rng.choice((1, 1, 2, 3))), rng.choice((8, 8, 1, 3, 7)), s0, s1, 0))
         evaluate(chk, mods, 'sample', {'items': items}, key=('sample', n), sample={'items': [str(i)[:60] for i in items]})
-    # the fixed witness of the finding (kept so that the check is stable across seeds)
-    evaluate(chk, mods, 'pzx', {'items': [('data', [0x80], 1, [100], [200, 300], 0)]}, tag='e2e-witness', key=('witness',))
+    # deterministic regression inputs of the defect fixed by 135fa23 (every seed, every tier): a last byte with
+    # fewer than 8 used bits and bit sequences of different lengths must still end on a bit boundary
+    for items in ([('data', [0x80], 1, [100], [200, 300], 0)],
+                  [('data', [0xA0], 3, [100], [200, 300], 945)],
+                  [('tone', 3, 2168), ('pulses', [667, 735]), ('data', [0x55, 0xAA], 7, [1, 2, 3], [9], 0), ('pause', 3500),
+                   ('pulses', [5]), ('data', [0xF8, 0x08], 5, [5], [6, 7, 8], 945), ('pause', 7), ('tone', 2, 9)]):
+        for fe, pol in ((0, 0), (11, 1)):
+            evaluate(chk, mods, 'pzx', {'items': items, 'fe': fe, 'pol': pol}, tag='e2e-regression-135fa23', key=('regr', str(items), fe, pol))
     for n in range(chk.scale(120, 1000)):
         items = rand_logical(rng, 'turbo')
         start, stop, skip = rand_opts(rng)
@@ -1140,7 +1111,6 @@ def run(chk):
         'TZX loops/jumps/calls are expanded by tap2sna/tapinfo, not by parse_tzx: loop expansion is covered by e2e only',
         'the merge loop (zero-length bit pulses) is proved sorted/in-range and level-equivalent to naive toggling (no pause since the last edge); '
         'it is not decodable by distance and has no decode theorem',
-        'the exact-pulses/decode theorems exclude PZX DATA blocks with p0 != p1 and used_bits < 8 (finding ' + FINDING_KEY + ')',
         'analyse=True printing and DataBlock.keys propagation are modelled/tied (keys) or not modelled (printing); no theorem about keys',
     ]
     mods = load_mods()
